@@ -21,7 +21,7 @@ class CHelperError(Exception):
     pass
 
 
-TOK = re.compile(r'\s*(->|==|!=|\+\+|[A-Za-z_]\w*|\d+|[-+*/%=<>()\[\]{};,&])')
+TOK = re.compile(r'\s*(->|==|!=|\+\+|&&|\|\||[A-Za-z_]\w*|\d+|[-+*/%=<>()\[\]{};,&!])')
 
 
 def tokenize(s):
@@ -62,9 +62,49 @@ def extract_functions(text):
     return funcs
 
 
+DEFAULT = 255        # the value-storage id of h->default_value (node n owns value storage n; 0 = NULL)
+KNOWN_FIELDS = ('size', 'val_limbs', 'default_value', 'list')
+
+
+def extra_fields(text):
+    """{name: kind} of hashmap_t members other than the four the model knows (a change may add e.g. a lookup cache)"""
+    m = re.search(r'typedef\s+struct\s*\w*\s*\{([^}]*)\}\s*hashmap_t\s*;', text)
+    out = {}
+    if not m:
+        raise CHelperError('hashmap_t declaration not found')
+    body = re.sub(r'//[^\n]*', ' ', m.group(1))
+    for decl in body.split(';'):
+        decl = decl.strip()
+        if not decl:
+            continue
+        mm = re.match(r'^([\w\s]+?)\s*(\**)\s*(\w+)$', decl)
+        if not mm:
+            raise CHelperError('hashmap_t member %r not understood' % decl)
+        ty, stars, name = mm.group(1).strip(), mm.group(2), mm.group(3)
+        if name in KNOWN_FIELDS:
+            continue
+        if ty == 'uint64_t' and not stars:
+            out[name] = 'key'
+        elif ty == 'int' and not stars:
+            out[name] = 'pos'
+        elif ty == 'val_t' and stars == '*':
+            out[name] = 'vptr'
+        elif ty in ('node_t', 'struct node') and stars == '*':
+            out[name] = 'node'
+        else:
+            raise CHelperError('hashmap_t member %r has a type outside the recognised subset' % decl)
+    return out
+
+
 class Interp(object):
-    def __init__(self, funcs, limbs, size=256, unroll=4):
+    def __init__(self, funcs, limbs, size=256, unroll=4, fields=None):
         self.funcs, self.limbs, self.size, self.unroll = funcs, limbs, size, unroll
+        self.hf = {}
+        for name, kind in sorted((fields or {}).items()):
+            # malloc'ed and not yet assigned: an arbitrary value
+            sort = {'key': 64, 'pos': 32, 'vptr': 8, 'node': 8}[kind]
+            self.hf[name] = (kind, z3.BitVec('uninit_h_%s' % name, sort))
+        self._brk = []
         self.W = 64 * limbs
         self.key = z3.K(NODE, z3.BitVecVal(0, 64))
         self.val = z3.K(NODE, z3.BitVecVal(0, self.W))
@@ -80,10 +120,33 @@ class Interp(object):
         for n in need:
             if n not in body:
                 raise CHelperError('create_hash_map no longer contains %r: its model (empty buckets, zero default) must be revisited' % n)
+        # stores to additional members (top level of create_hash_map only)
+        for st in self.split(self.funcs['create_hash_map'][1]):
+            if st[0] == 'simple' and len(st[1]) > 4 and st[1][0] == 'h' and st[1][1] == '->' and st[1][2] in self.hf \
+                    and st[1][3] == '=':
+                self.simple(st[1], {}, z3.BoolVal(True), {'val': None, 'done': z3.BoolVal(False)})
 
     # ------------------------------------------------------------ expression evaluation
+    @staticmethod
+    def truth(c):
+        return c[1] if c[0] == 'bool' else (c[1] != 0)
+
+    def _or(self, toks, pos, env):
+        a, pos = self._and(toks, pos, env)
+        while pos < len(toks) and toks[pos] == '||':
+            b, pos = self._and(toks, pos + 1, env)
+            a = ('bool', z3.Or(self.truth(a), self.truth(b)))
+        return a, pos
+
+    def _and(self, toks, pos, env):
+        a, pos = self._eq(toks, pos, env)
+        while pos < len(toks) and toks[pos] == '&&':
+            b, pos = self._eq(toks, pos + 1, env)
+            a = ('bool', z3.And(self.truth(a), self.truth(b)))
+        return a, pos
+
     def expr(self, toks, env):
-        val, pos = self._eq(toks, 0, env)
+        val, pos = self._or(toks, 0, env)
         if pos != len(toks):
             raise CHelperError('trailing tokens in expression %r' % ' '.join(toks))
         return val
@@ -127,10 +190,13 @@ class Interp(object):
                 while toks[j] != ')':
                     j += 1
                 return self._prim(toks, j + 1, env)
-            v, p2 = self._eq(toks, pos + 1, env)
+            v, p2 = self._or(toks, pos + 1, env)
             if toks[p2] != ')':
                 raise CHelperError('expected )')
             return v, p2 + 1
+        if t == '!':
+            v, p2 = self._prim(toks, pos + 1, env)
+            return ('bool', z3.Not(self.truth(v))), p2
         if t == 'NULL':
             return ('null', None), pos + 1
         if t.isdigit():
@@ -173,7 +239,9 @@ class Interp(object):
                 if field == 'val_limbs':
                     return ('pos', z3.BitVecVal(self.limbs, 32)), pos
                 if field == 'default_value':
-                    return ('val', z3.BitVecVal(0, self.W)), pos
+                    return ('vptr', z3.BitVecVal(DEFAULT, 8)), pos
+                if field in self.hf:
+                    return self.hf[field], pos
                 if field == 'list':
                     if toks[pos] != '[':
                         raise CHelperError('h->list without index')
@@ -188,7 +256,7 @@ class Interp(object):
             if field == 'key':
                 return ('key', z3.Select(self.key, ptr[1])), pos
             if field == 'val':
-                return ('val', z3.Select(self.val, ptr[1])), pos
+                return ('vptr', ptr[1]), pos         # node n owns value storage n
             if field == 'next':
                 return ('node', z3.Select(self.next, ptr[1])), pos
             raise CHelperError('unknown node field %r' % field)
@@ -228,18 +296,12 @@ class Interp(object):
                     else:
                         cur.append(x)
                 parts.append(cur)
-                if len(parts) != 3 or toks[j] != '{':
+                if len(parts) != 3:
                     raise CHelperError('for statement not understood')
-                k, depth = j + 1, 1
-                while depth:
-                    if toks[k] == '{':
-                        depth += 1
-                    elif toks[k] == '}':
-                        depth -= 1
-                    k += 1
+                fbody, k = self._body(toks, j)
                 if parts[0]:
                     out.append(('simple', parts[0]))
-                out.append(('while', parts[1], toks[j + 1:k - 1] + (parts[2] + [';'] if parts[2] else [])))
+                out.append(('while', parts[1], fbody + (parts[2] + [';'] if parts[2] else [])))
                 i = k
                 continue
             if t in ('while', 'if'):
@@ -252,18 +314,15 @@ class Interp(object):
                         depth -= 1
                     j += 1
                 cond = toks[i + 2:j - 1]
-                if toks[j] != '{':
-                    raise CHelperError('%s without braces' % t)
-                k, depth = j + 1, 1
-                while depth:
-                    if toks[k] == '{':
-                        depth += 1
-                    elif toks[k] == '}':
-                        depth -= 1
-                    k += 1
-                out.append((t, cond, toks[j + 1:k - 1]))
+                body, k = self._body(toks, j)
+                els = []
+                if t == 'if' and k < n and toks[k] == 'else':
+                    els, k = self._body(toks, k + 1)
+                out.append((t, cond, body, els))
                 i = k
                 continue
+            if t in ('else', 'do', 'switch', 'goto', 'continue'):
+                raise CHelperError('%s statement outside the recognised subset' % t)
             j = i
             while toks[j] != ';':
                 j += 1
@@ -271,27 +330,56 @@ class Interp(object):
             i = j + 1
         return out
 
+    def _body(self, toks, j):
+        """(tokens of the statement or block starting at toks[j], index after it)"""
+        if toks[j] == '{':
+            k, depth = j + 1, 1
+            while depth:
+                if toks[k] == '{':
+                    depth += 1
+                elif toks[k] == '}':
+                    depth -= 1
+                k += 1
+            return toks[j + 1:k - 1], k
+        if toks[j] in ('if', 'while', 'for'):
+            # a nested compound statement without braces: take "<kw> ( ... ) <body> [else <body>]"
+            k = j + 2
+            depth = 1
+            while depth:
+                if toks[k] == '(':
+                    depth += 1
+                elif toks[k] == ')':
+                    depth -= 1
+                k += 1
+            _, k = self._body(toks, k)
+            if toks[j] == 'if' and k < len(toks) and toks[k] == 'else':
+                _, k = self._body(toks, k + 1)
+            return toks[j:k], k
+        k = j
+        while toks[k] != ';':
+            k += 1
+        return toks[j:k + 1], k + 1
+
     def run_block(self, toks, env, guard, ret):
         for st in self.split(toks):
             if st[0] == 'simple':
                 guard = self.simple(st[1], env, guard, ret)
             elif st[0] == 'if':
-                c = self.expr(st[1], env)
-                cb = c[1] if c[0] == 'bool' else (c[1] != 0)
+                cb = self.truth(self.expr(st[1], env))
                 rem = self.run_block(st[2], env, z3.And(guard, cb), ret)
-                guard = z3.Or(z3.And(guard, z3.Not(cb)), rem)
+                rem2 = self.run_block(st[3], env, z3.And(guard, z3.Not(cb)), ret) if st[3] else z3.And(guard, z3.Not(cb))
+                guard = z3.Or(rem2, rem)
             else:   # while
                 g = guard
                 exits = []
+                self._brk.append([])
                 for _ in range(self.unroll):
-                    c = self.expr(st[1], env)
-                    cb = c[1] if c[0] == 'bool' else (c[1] != 0)
+                    cb = self.truth(self.expr(st[1], env))
                     exits.append(z3.And(g, z3.Not(cb)))
                     g = self.run_block(st[2], env, z3.And(g, cb), ret)
-                c = self.expr(st[1], env)
-                cb = c[1] if c[0] == 'bool' else (c[1] != 0)
+                cb = self.truth(self.expr(st[1], env))
                 self.unwinding.append(z3.And(g, cb))
-                guard = z3.Or(*exits, z3.And(g, z3.Not(cb)))
+                guard = z3.Or(*exits, z3.And(g, z3.Not(cb)), *self._brk.pop())
         return guard
 
     def ite(self, g, new, old):
@@ -306,8 +394,17 @@ class Interp(object):
         if toks[0] == 'return':
             if len(toks) > 1:
                 v = self.expr(toks[1:], env)
-                ret['val'] = z3.If(guard, v[1], ret['val']) if ret['val'] is not None else v[1]
+                if ret['val'] is None:
+                    ret['val'] = v
+                else:
+                    a, b = self._unify(v, ret['val'])
+                    ret['val'] = (a[0], z3.If(guard, a[1], b[1]))
             ret['done'] = z3.Or(ret['done'], guard)
+            return z3.BoolVal(False)
+        if toks == ['break']:
+            if not self._brk:
+                raise CHelperError('break outside a loop')
+            self._brk[-1].append(guard)
             return z3.BoolVal(False)
         if toks[0] == 'memcpy':
             # memcpy(<node>->val, val, sizeof(val_t) * h->val_limbs)
@@ -318,10 +415,10 @@ class Interp(object):
             src, size = rest[:c2], ' '.join(rest[c2 + 1:])
             if 'val_limbs' not in size or 'val_t' not in size:
                 raise CHelperError('memcpy size %r not understood' % size)
-            if len(dst) != 3 or dst[1] != '->' or dst[2] != 'val':
-                raise CHelperError('memcpy destination %r not understood' % ' '.join(dst))
-            ptr = env[dst[0]]
-            srcv = self.expr(src, env)
+            ptr = self.expr(dst, env)
+            if ptr[0] != 'vptr':
+                raise CHelperError('memcpy destination %r is not value storage' % ' '.join(dst))
+            srcv = self.deref(self.expr(src, env))
             self.val = z3.If(guard, z3.Store(self.val, ptr[1], srcv[1]), self.val)
             return guard
         # strip a leading declaration type
@@ -341,6 +438,16 @@ class Interp(object):
             idx = self.expr(lhs[4:-1], env)
             nv = v[1] if v[0] != 'null' else z3.BitVecVal(0, 8)
             self.list = z3.If(guard, z3.Store(self.list, idx[1], nv), self.list)
+            return guard
+        if lhs[1] == '->' and len(lhs) == 3 and lhs[0] == 'h':
+            if lhs[2] not in self.hf:
+                raise CHelperError('store to hashmap member %r outside create_hash_map' % lhs[2])
+            old = self.hf[lhs[2]]
+            if v[0] == 'null':
+                v = (old[0], z3.BitVecVal(0, old[1].size()))
+            if v[0] != old[0] or v[1] is None:
+                raise CHelperError('store of a %s to hashmap member %r (%s)' % (v[0], lhs[2], old[0]))
+            self.hf[lhs[2]] = (old[0], z3.If(guard, v[1], old[1]))
             return guard
         if lhs[1] == '->' and len(lhs) == 3:
             ptr = env[lhs[0]]
@@ -365,24 +472,36 @@ class Interp(object):
             env[p] = a
         ret = {'val': None, 'done': z3.BoolVal(False)}
         self.run_block(body, env, z3.BoolVal(True), ret)
-        return ret['val']
+        return self.deref(ret['val'])[1] if ret['val'] is not None else None
+
+    def deref(self, v):
+        """the word a value pointer designates now (NULL reads as an arbitrary word: undefined behaviour in the real code)"""
+        if v[0] == 'vptr':
+            return ('val', z3.If(v[1] == 0, z3.BitVec('null_deref', self.W), z3.Select(self.val, v[1])))
+        return v
 
 
-def map_obligation(text, limbs, nins=3, unroll=4, keybits=16):
-    """returns (goal, assumptions, unwinding conditions, variables) for: lookup after nins inserts == functional map"""
+def map_obligation(text, limbs, nins=3, unroll=4, keybits=16, valbits=None):
+    """returns (goal, assumptions, unwinding conditions, variables) for the history
+         lookup(q0); insert(k1,v1); lookup(q1); insert(k2,v2); lookup(q2); insert(k3,v3); lookup(q3)
+    every lookup returning what a functional map (default 0) holds at that moment"""
     funcs = extract_functions(text)
     for need in ('create_hash_map', 'hash_code', 'insert', 'lookup'):
         if need not in funcs:
             raise CHelperError('helper function %r not found' % need)
-    it = Interp(funcs, limbs, unroll=unroll)
+    it = Interp(funcs, limbs, unroll=unroll, fields=extra_fields(text))
     W = 64 * limbs
     ks = [z3.BitVec('hk%d' % i, 64) for i in range(nins)]
     vs = [z3.BitVec('hv%d' % i, W) for i in range(nins)]
-    q = z3.BitVec('hq', 64)
+    qs = [z3.BitVec('hq%d' % i, 64) for i in range(nins + 1)]
     model = z3.K(KEY, z3.BitVecVal(0, W))
-    for k, v in zip(ks, vs):
+    goals = [it.call('lookup', [('h', None), ('key', qs[0])]) == z3.Select(model, qs[0])]
+    for i, (k, v) in enumerate(zip(ks, vs)):
         it.call('insert', [('h', None), ('key', k), ('val', v)])
         model = z3.Store(model, k, v)
-    got = it.call('lookup', [('h', None), ('key', q)])
-    assume = [z3.ULT(k, z3.BitVecVal(1 << keybits, 64)) for k in ks + [q]]
-    return got == z3.Select(model, q), assume, it.unwinding, {'keys': ks, 'vals': vs, 'q': q}
+        goals.append(it.call('lookup', [('h', None), ('key', qs[i + 1])]) == z3.Select(model, qs[i + 1]))
+    assume = [z3.ULT(k, z3.BitVecVal(1 << keybits, 64)) for k in ks + qs]
+    if valbits is not None and valbits < W:
+        # the words the generated code can pass are bitwidth-limited
+        assume += [z3.ULT(v, z3.BitVecVal(1 << valbits, W)) for v in vs]
+    return z3.And(*goals), assume, it.unwinding, {'keys': ks, 'vals': vs, 'qs': qs}
